@@ -143,6 +143,14 @@ def p_C01(ctx):
     ctx.sample_from(w.cases_path, 1)
     ctx.replay(w.cases_path, attr_hist, profile="dev", elem="elem", cap=1, label="walks")
     ctx.replay(w.cases_path, attr_hist, profile="release", elem="elem", cap=0, label="walks")
+    # third binding path: the repository's own tests, run with the cfg-guarded hook, become trace drivers
+    def attr_hook_event(case, ev):
+        op = ev.get("op")
+        props = {"C01"} | ({"C11"} if ev.get("panicked") else set())
+        props |= {"insert_row": {"C06"}, "insert_col": {"C06"}, "remove_row": {"C07"}, "remove_col": {"C07"}, "drain_col_drop": {"C07"},
+                  "new": {"C20"}, "init": {"C20"}, "from_vec": {"C20"}}.get(op, set())
+        return props, {"family": "hooktrace", "op": op, "kind": "trace_rejected"}
+    ctx.repo_tests_trace(attr_hook_event)
     # code -> spec: long random histories on larger shapes, recorded from the real crate and validated by TLC
     nh, steps = (120, 60) if ctx.quick else (1500, 120)
     ctx.drive_and_validate("drive-hist", ["hist", ctx.seed, nh, steps, 6, "{out}", "elem"], "TooDeeTrace", attr_hist_event,
